@@ -4428,6 +4428,8 @@ def _match__inside_list_quantifier(
                 m = FSTMatch(q_pat, t, m)
 
         else:
+            tgt_idx = tgt_iter.idx
+
             if (t := tgt_iter.next()) is _SENTINEL:  # end of list?
                 return False
 
@@ -4443,6 +4445,7 @@ def _match__inside_list_quantifier(
                 m = FSTMatch(q_pat, t, m)
 
         matches.insert(matches_ins_idx, m)
+        tgt_idxs.append(tgt_idx)
 
         return True
 
@@ -4457,6 +4460,7 @@ def _match__inside_list_quantifier(
     q_min = pat.min
     q_max = pat.max
     matches_ins_idx = 0x7fffffffffffffff
+    tgt_idxs = []  # target index at the start of each match in `matches`, a sublist match can span any number of targets
     count = 0
 
     if q_max is None:
@@ -4524,7 +4528,7 @@ def _match__inside_list_quantifier(
         if greedy:  # if greedy then we are removing previous matches to try again one position to the left
             del matches[matches_del_idx]  # if there are static_tags then we are deleting the dictionary before those
 
-            tgt_iter.idx -= 1  # step back 1
+            tgt_iter.idx = tgt_idxs.pop()  # step back to where the discarded match started
             count -= 1
 
         else:  # if non-greedy then we are attempting to match our pattern one position to the right and if successful then try match shorter list
